@@ -52,7 +52,7 @@ func joinFrames(fs [][]byte) []byte {
 func TestStreamEdits(t *testing.T) {
 	rapid.Check(t, func(t *rapid.T) {
 		ia := rapid.IntRange(0, 5).Draw(t, "idA")
-		ib := rapid.IntRange(0, 5).Draw(t, "idB")
+		ib := (ia + 1 + rapid.IntRange(0, 4).Draw(t, "idB")) % 6 // a different identity
 		eph := drawEphDistinct(t, 4, "eph")
 		dir := rapid.IntRange(0, 1).Draw(t, "dir")
 		plan := genDir(t, "w", 12_000)
